@@ -196,6 +196,14 @@ def _p_short(x):
     return (not isinstance(x, type)) and hasattr(x, '__len__') and len(x) < 3
 
 
+def _p_gt0(x):
+    return x > 0            # partial on purpose: raises TypeError for anything that is not a number (only used behind a guard)
+
+
+def _p_lt10(x):
+    return x < 10           # partial on purpose
+
+
 def _p_always(x):
     return True
 
@@ -206,7 +214,7 @@ def _p_never(x):
 
 PREDICATES = {
     'pos': _p_pos, 'nonempty': _p_nonempty, 'even': _p_even, 'truthy': _p_truthy,
-    'short': _p_short, 'always': _p_always, 'never': _p_never,
+    'short': _p_short, 'always': _p_always, 'never': _p_never, 'gt0': _p_gt0, 'lt10': _p_lt10,
 }
 
 SEQ_ORIGINS = {
@@ -884,10 +892,25 @@ _NODE_LEAF_VALIDATORS = [
 ]
 
 
+def _gen_partial_compound(rng, depth):
+    """A compound of *partial* predicates (they raise TypeError on non-numbers): only ever placed behind a guard."""
+    r = rng.random()
+    if depth <= 0 or r < 0.4:
+        return {'v': 'is', 'f': rng.choice(['gt0', 'lt10'])}
+    if r < 0.7:
+        return {'v': 'and', 'a': [_gen_partial_compound(rng, depth - 1), _gen_partial_compound(rng, depth - 1)]}
+    if r < 0.9:
+        return {'v': 'or', 'a': [_gen_partial_compound(rng, depth - 1), _gen_partial_compound(rng, depth - 1)]}
+    return {'v': 'not', 'a': [_gen_partial_compound(rng, depth - 1)]}
+
+
 def gen_node_validator(rng, depth=3):
     """Validator expressions over the attribute chains of Node: nested IsAttr on the *same* attribute name, compounds with
-    operands before and after the nested one."""
+    operands before and after the nested one, and guarded partial predicates (IsInstance[int] & <compound that would raise
+    on anything else>): the guard short-circuits the compound in the fast path *and* while a rejection is explained."""
     r = rng.random()
+    if depth > 0 and rng.random() < 0.12:
+        return {'v': 'and', 'a': [{'v': 'isinst', 'c': ['int']}, _gen_partial_compound(rng, rng.choice([0, 1, 2]))]}
     if depth <= 0 or r < 0.25:
         return rng.choice(_NODE_LEAF_VALIDATORS)
     if r < 0.55:
